@@ -16,6 +16,14 @@ func main() {
 		err = cmdReplay(os.Args[2:])
 	case "upgrades":
 		err = cmdUpgrades(os.Args[2:])
+	case "locks-stress":
+		err = cmdLocksStress()
+	case "locks-measure":
+		err = cmdLocksMeasure()
+	case "locks-replay":
+		err = cmdLocksReplay(os.Args[2:])
+	case "concurrent":
+		err = cmdConcurrent(os.Args[2:])
 	case "replicas":
 		err = cmdReplicas(os.Args[2:])
 	case "replica-child":
